@@ -271,6 +271,34 @@ def s1_class_state(prog, ctx, tag="S1"):
 
 
     default_instances(prog, ctx, tag)
+    memoised_functions(prog, ctx, tag)
+
+
+def memoised_functions(prog, ctx, tag, files=None):
+    """functools.lru_cache / cache keeps every result for the life of the process.  That is a sound memo for values, not for objects that
+    carry state of their own: an object of a project class handed out from the cache is shared by every later caller - the next
+    chromosome task, the next experiment - together with whatever the earlier ones did to it (counters, registries)."""
+    classes = {c.name for _m, _q, c in prog.all_classes()}
+    for m, q, f in prog.all_functions():
+        if files is not None and m.rel not in files:
+            continue
+        decos = [dotted(d.func) if isinstance(d, ast.Call) else dotted(d) for d in f.decorator_list]
+        if not any(d and d.split(".")[-1] in ("lru_cache", "cache") for d in decos):
+            continue
+        made = [c for r in walk_no_nested(f) if isinstance(r, ast.Return) and r.value is not None for c in ast.walk(r.value)
+                if isinstance(c, ast.Call) and (call_name(c) or "").split(".")[-1] in classes]
+        # ... or a local bound to such an object
+        for r in [r for r in walk_no_nested(f) if isinstance(r, ast.Return) and isinstance(r.value, ast.Name)]:
+            for st in walk_no_nested(f):
+                if isinstance(st, ast.Assign) and any(src(t) == r.value.id for t in st.targets) and isinstance(st.value, ast.Call) \
+                        and (call_name(st.value) or "").split(".")[-1] in classes:
+                    made.append(st.value)
+        if made:
+            ctx.fail(tag, f, q, "@%s on %s" % (decos[0], q), "%s is memoised for the life of the process and returns an object of the project "
+                     "class %s: every later caller with equal arguments (the next chromosome task, the next experiment) gets the SAME "
+                     "object, including the state earlier callers left in it" % (q, call_name(made[0])))
+        else:
+            ctx.ok(tag, "%s:%d" % (m.rel, f.lineno), "%s is memoised and returns plain values" % q)
 
 
 def _self_mutations(prog, clsdef):
